@@ -9,7 +9,7 @@ print(f"""You are testing a verification effort by seeding a realistic defect. Y
 
     git -C /repo worktree add --detach {wt} HEAD
 
-Work only inside {wt} (never edit /repo itself, never look at or touch /verif). Python to use: /venv/bin/python (run things from inside the worktree so that `import pony` resolves to the worktree: `cd {wt} && /venv/bin/python -c "import pony; print(pony.__file__)"` must print a path under {wt}). The test-suite command is: `cd {wt} && /venv/bin/python -m pytest -q -p no:cacheprovider --timeout=900 --continue-on-collection-errors` (about 10 s; on the unmodified tree exactly 2 tests fail and 1 errors in test_decompiler.py — test_ast_copy, test_ast_multiline, test_method — those are the known baseline failures; 3874 pass). Only SQLite is available as a backend; there is no network.
+Work only inside {wt} (never edit /repo itself, never look at or touch /verif). Python to use: /venv/bin/python (run things from inside the worktree so that `import pony` resolves to the worktree: `cd {wt} && /venv/bin/python -c "import pony; print(pony.__file__)"` must print a path under {wt}). The test-suite command is: `cd {wt} && /venv/bin/python -m pytest -q -p no:cacheprovider --timeout=900 --continue-on-collection-errors` (about 10 s; on the unmodified tree exactly 1 test fails and 1 errors in test_decompiler.py — test_ast_multiline, test_method — those are the known baseline failures; 3875 pass). Only SQLite is available as a backend; there is no network.
 
 The semantic property of Pony that your change must BREAK:
 
@@ -19,7 +19,7 @@ The semantic property of Pony that your change must BREAK:
   Code areas involved: {', '.join(p['anchors']['files'])}
 
 Task: make ONE small, realistic change to the Pony source in your worktree (the kind of slip a maintainer could make in a refactoring or optimisation: a wrong comparison, a missing undo/cleanup step, a swapped order, an off-by-one, a stale cache key, a forgotten case) such that
-  1. the project still imports and the existing test-suite gives exactly the same results as before (3874 passed; same 3 baseline failures),
+  1. the project still imports and the existing test-suite gives exactly the same results as before (3875 passed; same 2 baseline failures),
   2. the property above no longer holds,
   3. the breakage needs something SPECIFIC to manifest — a particular multi-step sequence of operations, an unusual input or boundary value, a particular interleaving or fault point, or two code sites that each look fine alone — NOT something ordinary use would expose at once.
 Write a demonstration script `{wt}/demo_{pid.lower()}_{n}.py` (a small standalone program using only pony + stdlib + sqlite) that exits 0 and prints PASS on the unmodified tree and exits 1 and prints FAIL (with what it observed vs expected) with your change applied. Verify both directions yourself with `git diff > /tmp/<your-worktree-name>.diff; git checkout -- pony; <run demo>; git apply /tmp/<your-worktree-name>.diff` (do NOT use `git stash`: the stash is shared by all worktrees of /repo and other people work in parallel). Run the full test-suite with your change and confirm the counts.
